@@ -1970,8 +1970,10 @@ def make_builtins(I):
                 if all(isinstance(x, str) for x in items):
                     yield st, (min(items) if which == "min" else max(items))
                     return
-                yield st, exc("TypeError", "unorderable types in %s()" % which)
-                return
+                if all(x is None or is_number(x) or isinstance(x, (str, tuple)) for x in items) and not any(isinstance(x, tuple) for x in items):
+                    yield st, exc("TypeError", "unorderable types in %s()" % which)  # numbers mixed with str / None
+                    return
+                raise Unsupported("min/max over values ordered by something else than numbers (lists, objects with __lt__, ...)")
             r = items[0]
             for x in items[1:]:
                 r = ops.zmin(r, x) if which == "min" else ops.zmax(r, x)
@@ -1998,6 +2000,9 @@ def make_builtins(I):
         for x in items:
             nxt = []
             for s1, t in cur:
+                if isinstance(t, Exc):  # an addition already raised on this path: sum() stops there
+                    nxt.append((s1, t))
+                    continue
                 for s2, r in M.binop(I, s1, "Add", t, x):
                     nxt.append((s2, r))
             cur = nxt
